@@ -356,6 +356,9 @@ func (e *Engine) CheckAll() {
 	nowOK := map[uint64]bool{}
 	defer func() { e.prevOK = nowOK }()
 	for ni, n := range e.nodes {
+		if e.only != nil && !e.only[n.name] {
+			continue
+		}
 		e.negativeViews(n)
 		views := e.openViews(n)
 		e.recheckHeld(n, qs)
